@@ -120,10 +120,14 @@ def regPeer : Reg.Op → Nat
   | .unsub p .. => p
   | .drop p => p
   | .dropEnt p _ => p
+  | .subsPass p _ => p
+  | .bindsPass p _ => p
 
 def isCall : Reg.Op → Bool
   | .drop _ => false
   | .dropEnt .. => false
+  | .subsPass .. => false
+  | .bindsPass .. => false
   | _ => true
 
 def step (c : Cfg) (s : St) : Op → St
